@@ -17,6 +17,36 @@ import (
 type c04env struct {
 	rep  *vh.Report
 	back []byte // big backing array for canary checks
+	// decoded values handed out earlier: they must still be what they were after later decodes (of any type) and after
+	// the caller has reused its payload buffer
+	kept []c04kept
+}
+
+type c04kept struct {
+	mi   *msgInfo
+	got  reflect.Value
+	want reflect.Value
+	v2   bool
+}
+
+func (e *c04env) keep(mi *msgInfo, got message.Message, want reflect.Value, v2 bool) {
+	e.kept = append(e.kept, c04kept{mi, reflect.ValueOf(got), want, v2})
+	if len(e.kept) >= 48 {
+		e.recheck()
+	}
+}
+
+func (e *c04env) recheck() {
+	for _, k := range e.kept {
+		e.rep.Count("decoded_values_rechecked_later", 1)
+		if eq, diff := k.mi.Layout.BitEqual(k.got, k.want); !eq {
+			e.rep.Violation(fmt.Sprintf("msg=%s ver=%d what=unstable", k.mi.Name, verOf(k.v2)),
+				"a decoded value changed after it was returned (later decodes / reuse of the caller's payload buffer): field "+diff,
+				map[string]interface{}{"now": fmt.Sprintf("%+v", k.got.Interface()), "was": fmt.Sprintf("%+v", k.want.Interface())})
+			break
+		}
+	}
+	e.kept = e.kept[:0]
 }
 
 // decodeCanary runs the real decoder on payload placed inside a larger backing array
@@ -95,7 +125,9 @@ func (e *c04env) checkDecode(mi *msgInfo, payload []byte, v2 bool, what string) 
 			e.rep.Violation(fmt.Sprintf("msg=%s ver=%d what=%s", mi.Name, verOf(v2), what),
 				"decoded value differs from the reference decoder in field "+diff,
 				map[string]interface{}{"case": wit(), "got": fmt.Sprintf("%+v", got), "want": fmt.Sprintf("%+v", want.Interface())})
+			return
 		}
+		e.keep(mi, got, want, v2)
 	})
 }
 
@@ -316,5 +348,7 @@ func TestC04(t *testing.T) {
 			rep.Count("concurrent_decode_types", 1)
 		}
 	}
+	env.recheck()
 	rep.Floor("types", 400)
+	rep.Floor("decoded_values_rechecked_later", 1000)
 }
